@@ -183,7 +183,10 @@ def pushdown_dnf(
             nodes = nodes_for_predicate(predicate, sources, scope_ref_count)
 
             if table not in nodes:
-                continue
+                # Every block of the DNF has to contribute a condition on the table. Pushing only the
+                # other blocks' conditions would filter out the rows that satisfy this block
+                conditions.pop(table, None)
+                break
 
             conditions[table] = (
                 exp.or_(conditions[table], predicate) if table in conditions else predicate
